@@ -429,8 +429,8 @@ package device
 //@   ensures lavOK(d.config, d.lastAnalogValue)
 //@   cut load(.DeadzoneAtCenter) [C05,C06] !isNaN(value) && value >= -1.0 && value <= 1.0 && (!canBeNegative ==> value >= 0.0) && (canBeNegative <==> min < 0)
 //@   cut load(.Deadzones) [C05,C06] !isNaN(value) && value >= -1.0 && value <= 1.0 && (!canBeNegative ==> value >= 0.0)
-//@   cut load(.lastAnalogValue) [C05,C06] (isNaN(value) || value >= -1.0039) && (isNaN(value) || value <= 1.0039) && (isNaN(value) || canBeNegative || value >= 0.0)
-//@   cut load(.MappingType) [C05,C06] (isNaN(value) || value >= -1.0039) && (isNaN(value) || value <= 1.0039) && (isNaN(value) || canBeNegative || value >= -0.004)
+//@   cut load(.lastAnalogValue) [C05,C06] (isNaN(value) || value >= -1.0078) && (isNaN(value) || value <= 1.0038) && (isNaN(value) || canBeNegative || value >= 0.0)
+//@   cut load(.MappingType) [C05,C06] (isNaN(value) || value >= -1.0078) && (isNaN(value) || value <= 1.0078) && (isNaN(value) || canBeNegative || value >= -0.0039) && (isNaN(value) || canBeNegative || value <= 1.0038)
 //@   ensures wf(d) && tableOK(d)
 //@   ensures [C01] old(Inv(d)) ==> Inv(d)
 //@   safety [C05]
